@@ -23,3 +23,83 @@ def placeholder_escape(text: str) -> str:
 def placeholder_unescape(text: str) -> str:
     return (text.replace("%2C", ",").replace("%3A", ":")
                 .replace("%3B", ";").replace("%5C", "\\"))
+
+
+# ---------------------------------------------------------------------------------------------
+# Executable model of Contentline.parts() *as it behaves today*: the line is %XX-escaped, split
+# leniently (first unquoted ';'/':' ends the name, first unquoted ':' starts the value, a line
+# without ':' has an empty value), the parameter section is split quote-aware, every piece is
+# %XX-unescaped.  Used only to decide whether an observed wrong split is the known placeholder
+# finding: the prediction must equal the observation exactly.
+import re as _re
+
+_TOKEN = _re.compile(r"[\w.-]+\Z")
+_UNSAFE = _re.compile('[\x00-\x08\x0a-\x1f\x7F",:;]')
+_QUNSAFE = _re.compile('[\x00-\x08\x0a-\x1f\x7F"]')
+
+
+def _q_split(st, sep, maxsplit=-1):
+    if maxsplit == 0:
+        return [st]
+    result, cursor, inquote, splits = [], 0, False, 0
+    for i, ch in enumerate(st):
+        if ch == '"':
+            inquote = not inquote
+        if not inquote and ch == sep:
+            result.append(st[cursor:i])
+            cursor = i + 1
+            splits += 1
+        if i + 1 == len(st) or splits == maxsplit:
+            result.append(st[cursor:])
+            break
+    return result
+
+
+def lenient_parts(line):
+    """-> ("ok", name, {NAME: scalar-or-list}, value) | ("reject",)"""
+    st = placeholder_escape(line)
+    name_split = value_split = None
+    in_quotes = False
+    i = -1
+    for i, ch in enumerate(st):
+        if not in_quotes:
+            if ch in ":;" and not name_split:
+                name_split = i
+            if ch == ":" and not value_split:
+                value_split = i
+        if ch == '"':
+            in_quotes = not in_quotes
+    name = placeholder_unescape(st[:name_split])
+    if not name or not _TOKEN.match(name):
+        return ("reject",)
+    if not value_split:
+        value_split = i + 1
+    if not name_split or name_split + 1 == value_split:
+        return ("reject",)
+    params = {}
+    for param in _q_split(st[name_split + 1:value_split], ";"):
+        kv = _q_split(param, "=", 1)
+        if len(kv) != 2:
+            return ("reject",)
+        key, val = kv
+        if not _TOKEN.match(key):
+            return ("reject",)
+        vals = []
+        for v in _q_split(val, ","):
+            if v.startswith('"') and v.endswith('"'):
+                v = v.strip('"')
+                if _QUNSAFE.search(v):
+                    return ("reject",)
+            elif _UNSAFE.search(v):
+                return ("reject",)
+            vals.append(placeholder_unescape(v))
+        if not vals:
+            value = placeholder_unescape(val)
+        else:
+            value = vals[0] if len(vals) == 1 else vals
+        params[placeholder_unescape(key).upper()] = value
+    return ("ok", name, params, placeholder_unescape(st[value_split + 1:]))
+
+
+def placeholder_involved(line):
+    return placeholder_escape(line) != line or placeholder_unescape(line) != line
